@@ -22,8 +22,10 @@ stop_words = {
     "await",
     "bool",
     "break",
+    "bytes",
     "class",
     "continue",
+    "dataclass",
     "def",
     "del",
     "dict",
@@ -54,6 +56,7 @@ stop_words = {
     "self",
     "str",
     "try",
+    "tuple",
     "type",
     "validate",
     "while",
